@@ -374,6 +374,7 @@ func c17Faults(g *G, n int, oneIn int) string {
 }
 
 func genC17(g *G) {
+	genC17Outcome(g)
 	// ---- filter: exhaustive small scopes. request = resource 1, destination 2
 	type dd struct{ d, r string }
 	full := []dd{{"2", "1"}, {"2", "2"}, {"3", "1"}, {"3", "2"}}
